@@ -168,10 +168,10 @@ def run(ctx):
     # ---- R12.3
     try:
         nm = body_of(ctx, "R12.3", "watchexec_cli::args::filtering::FilteringArgs::normalise")
-        ifs = [n for n in thir.find(thir.root(nm), "if") if pathx.desc(n["c"]).lstrip("^").endswith("self.ignore_nothing")]
+        ifs = [n for n in thir.find(thir.root(nm), "if") if pathx.if_parts(n)[0].lstrip("^").endswith("self.ignore_nothing")]
         ok = False
-        if len(ifs) == 1:
-            sets = {pathx.desc(a["a"]).lstrip("^").split(".")[-1]: pathx.desc(a["b"]) for a in thir.find(ifs[0]["t"], "assign")}
+        if len(ifs) == 1 and pathx.if_parts(ifs[0])[1] is not None:
+            sets = {pathx.desc(a["a"]).lstrip("^").split(".")[-1]: pathx.desc(a["b"]) for a in thir.find(pathx.if_parts(ifs[0])[1], "assign")}
             adt = facts.find_adt("watchexec_cli::args::filtering::FilteringArgs")
             flags = [f["name"] for f in adt["variants"][0]["fields"] if re.match(r"^no_\w+_ignore$", f["name"]) and f["ty"] == "bool"]
             ctx.floor("R12.3", "no_*_ignore flags", len(flags), 5)
